@@ -2,7 +2,10 @@ ENTRY = {
     "level": "proof",
     "families": [fam("C04", 40, 1200)],
     "gen_items": [],
-    "rule": "60% sqlgen statements (strata filter/join/agg/distinct/setop/sort_limit/cte/subquery, no cross joins), 40% hand-written aggregate templates over an "
+    "rule": "30% stratum shape:clustered-range-agg (table t0(k sorted null-free, v, g) of files x row-groups x rows = (1..3) x (3..8) x {3,4,5,7,10,16} rows, written with exactly that row-group size; "
+            "global or GROUP BY g aggregates COUNT(*)/SUM/MIN/MAX/COUNT over the unaliased table under k >=|> lo AND k <=|< hi, BETWEEN, or a one-sided range, bounds on row-group "
+            "boundaries, boundary +-1 or inside a row group: pruned, proved-all-true and partly matching row groups on the morsel path), 30% aggregate templates and 40% sqlgen statements as follows: "
+            "60% sqlgen statements (strata filter/join/agg/distinct/setop/sort_limit/cte/subquery, no cross joins), 40% hand-written aggregate templates over an "
             "UNALIASED table (0/1/2 group keys of any type, COUNT(*)/SUM/MIN/MAX/COUNT over an integer column, optional integer WHERE) - the only logical shape that "
             "reaches MorselAggregateExec and its dense variant (sqlgen aliases every table); generated catalogs of 1-3 tables "
             "(0..300 rows, NULL densities 0/10/50/100 %); each statement on the same rows as one memory batch per table, as the generated memory batches, "
@@ -21,7 +24,7 @@ ENTRY = {
         "aggregation path through the planner's own routing of aggregates over unaliased Parquet tables (recorded per case as path:<variant>:<operator> tags from ctx.physical_plan)",
     ],
     "min_tags": {"variant:d": 1, "variant:s": 1, "variant:n": 1, "files:multi": 1, "rg:1": 1, "rg:1024": 1,
-                 "path:d:MorselAggregate": 1, "path:s:StreamingParquetScan": 1, "path:d:MemoryTableScan": 1, "path:n:StreamingParquetScan": 1},
+                 "path:d:MorselAggregate": 1, "shape:clustered-range-agg": 8, "path:morsel_taken": 8, "range:two_sided": 1, "path:s:StreamingParquetScan": 1, "path:d:MemoryTableScan": 1, "path:n:StreamingParquetScan": 1},
     "manifest": {
         "category": "proof",
         "text": "Lean theorems: the reference semantics Spec.run depends only on the bag of rows of each table, so any two cuts of the same rows into files, row "
